@@ -16,6 +16,27 @@ import numpy
 import treelog
 
 
+# Verification hook (add-only): when the environment variable
+# NUTILS_VERIF_TRACE names a file, every protocol step of fork/range is
+# appended to it as one JSON line (a single atomic write on an O_APPEND
+# descriptor, carrying the process id and a per-process sequence number, never
+# wall-clock time). When the variable is unset `_verif` is None and every hook
+# site costs a single `if _verif is not None` test.
+_verif = None
+if os.environ.get('NUTILS_VERIF_TRACE'):
+    import json as _verif_json
+    _verif_fd = os.open(os.environ['NUTILS_VERIF_TRACE'], os.O_WRONLY | os.O_CREAT | os.O_APPEND, 0o644)
+    _verif_seq = {}
+
+    def _verif(ev, **kw):
+        pid = os.getpid()
+        _verif_seq[pid] = seq = _verif_seq.get(pid, 0) + 1
+        try:
+            os.write(_verif_fd, (_verif_json.dumps(dict(ev=ev, pid=pid, seq=seq, **kw), default=int) + '\n').encode())
+        except Exception:  # pragma: no cover
+            pass
+
+
 @util.set_current
 @util.defaults_from_env
 def maxprocs(nprocs: int = 1):
@@ -55,6 +76,7 @@ def _fork(nprocs):
             pid = os.fork()
             if not pid:  # pragma: no cover
                 amchild = True
+                if _verif is not None: _verif('child_start', procid=procid)
                 signal.signal(signal.SIGINT, signal.SIG_IGN)  # disable sigint (ctrl+c) handler
                 setter = treelog.set(treelog.NullLog())
                 setter.__enter__()  # silence treelog
@@ -64,23 +86,28 @@ def _fork(nprocs):
             child_pids.append(pid)
         else:
             procid = 0
+            if _verif is not None: _verif('fork', nprocs=nprocs, children=child_pids)
         with maxprocs(1):
             yield procid
     except BaseException as e:
         if amchild:  # pragma: no cover
             try:
+                if _verif is not None: _verif('child_exit', code=1)
                 print('[parallel.fork] exception in child process:', e)
             finally:
                 os._exit(1)  # communicate failure to main process
+        if _verif is not None: _verif('kill_children', children=child_pids)
         for pid in child_pids:  # kill all child processes
             os.kill(pid, signal.SIGKILL)
         raise
     else:
         if amchild:  # pragma: no cover
+            if _verif is not None: _verif('child_exit', code=0)
             os._exit(0)  # communicate success to main process
         with treelog.context('waiting for child processes'):
             nfails = sum(not _wait(pid) for pid in child_pids)
         if nfails:  # failure in child process: raise exception
+            if _verif is not None: _verif('fork_raise', nfails=nfails)
             raise Exception('fork failed in {} out of {} processes'.format(nfails, nprocs))
     finally:
         if amchild:  # pragma: no cover
@@ -140,8 +167,10 @@ class range:
         with self._lock:
             iiter = self._index.value  # claim next value
             if iiter >= self._stop:
+                if _verif is not None: _verif('exhausted', index=iiter)
                 raise StopIteration
             self._index.value = iiter + 1
+            if _verif is not None: _verif('claim', iiter=iiter)
         return iiter
 
 
@@ -150,6 +179,7 @@ def ctxrange(name, nitems):
     '''fork and yield shared range-like counter with percentage-style logging'''
 
     rng = range(nitems)  # shared range, must be created pre-fork
+    if _verif is not None: _verif('ctxrange', nitems=nitems, maxprocs=maxprocs.current)
     with fork(nitems), treelog.iter.wrap(_pct(name, nitems), rng) as wrprng:
         yield wrprng
 
@@ -170,6 +200,7 @@ def _wait(pid):
     if os.WIFEXITED(status):
         s = os.WEXITSTATUS(status)
         if not s:
+            if _verif is not None: _verif('wait', child=pid, ok=True)
             return True
         msg = 'exited with status {}'.format(s)
     elif os.WIFSIGNALED(status):
@@ -181,6 +212,7 @@ def _wait(pid):
     else:
         msg = 'died of unnatural causes'
     treelog.error('process {} {}'.format(pid, msg))
+    if _verif is not None: _verif('wait', child=pid, ok=False)
     return False
 
 # vim:sw=4:sts=4:et
